@@ -610,6 +610,8 @@ class Lin:
         self.cur[tid] = {"op": o, "kind": kind, "slot": slot, "nsec": 0, "ndg": 0, "row": None}
 
     def sec_end(self, tid):
+        if getattr(self.rig.tls, "reading", False):
+            return                  # get_queue_status() called by a callback: a read, not a step of the call in progress
         c = self.cur.get(tid)
         if c is None or c["kind"] == "other":
             self.committed = self.snap()
@@ -908,12 +910,22 @@ class Rig:
         self.held_threads = set()       # ... those callers (alive, not hung: they end by themselves when `hold` is set)
         self.call_ops = []          # (id, raised, kind of the call of the history the digester ran in | None)   multi-thread runs
         self.hook = None            # called with the item id at every digester / on_toxic call (scheduled runs: Lin.dg)
+        # callbacks that CALL BACK into this lysosome: acts[ingest event] = what the digester / on_toxic of that item does
+        # with the lysosome it was called from, before it returns / raises:  ["status"] (get_queue_status() + get_statistics(),
+        # from whatever call and thread it is invoked) | a call of its own - ["digest", k] | ["ingest", t, off, out] |
+        # ["isens", out] | ["ierr", out] | ["auto"] - made when the callback is invoked by a digest() call of the program
+        # (op rdigest; the items are off the queue, the lock is free) and is not itself running inside such a nested call;
+        # anywhere else (invoked by an ingest that auto-digests / makes room, or inside a nested call) it only reads
+        self.acts = {}
+        self.rdrive = None          # the Drive whose re-entrant digest() call is in progress
+        self.reentries = []         # (item, action, "call" | "read") every time a callback called back
 
         def dg(waste, up=1):
             self.maybe_park()
             i = self.event_of_call(waste)
             if self.hook:
                 self.hook(i)
+            self.reenter(i)
             out = self.outs.get(i)
             self.calls.append((i, "dg", out is None))
             self.call_ops.append((i, out is None, getattr(self.tls, "op", None)))
@@ -936,6 +948,7 @@ class Rig:
             i = self.event_of_call(waste)
             if self.hook:
                 self.hook(i)
+            self.reenter(i)
             out = self.outs.get(i)
             self.toxlog.append(i)
             self.calls.append((i, "cb", out is None))
@@ -973,6 +986,31 @@ class Rig:
         if self.dd:
             for t in self.wt[:4]:
                 self.lys._digesters[t] = watch(self.lys._digesters[t])
+
+    def reenter(self, i):
+        """the digester / on_toxic of item i, invoked by the lysosome, calls back into it (self.acts)"""
+        d = self.rdrive
+        top = d is not None and getattr(self.tls, "rd", False) and not getattr(self.tls, "depth", 0)
+        if top:
+            d.sub_enter()           # a digester call of the re-entrant digest() begins: the previous step of that call is over
+        act = self.acts.get(i)
+        if act is None:
+            return
+        if act[0] != "status" and top:
+            self.tls.depth = 1
+            self.reentries.append((i, act, "call"))
+            try:
+                d.sub_call(i, act)
+            finally:
+                self.tls.depth = 0
+            return
+        self.reentries.append((i, act, "read"))
+        self.tls.reading = True     # (scheduled runs: the critical section of a read-only accessor is not a step of the call)
+        try:
+            self.lys.get_queue_status()
+            self.lys.get_statistics()
+        finally:
+            self.tls.reading = False
 
     def close(self):
         with self.cv:
@@ -1208,6 +1246,14 @@ class Rig:
             return lambda: lys.ingest_sensitive(data, source="h")
         if o[0] == "digest":
             return lambda: lys.digest(o[1]) if o[1] is not None else lys.digest()
+        if o[0] == "rdigest":       # digest(k) by the program, the callbacks of its items call back (self.acts)
+            def rdigest():
+                self.tls.rd = True
+                try:
+                    return lys.digest(o[1]) if o[1] is not None else lys.digest()
+                finally:
+                    self.tls.rd = False
+            return rdigest
         if o[0] == "auto":
             return lambda: lys.autophagy()
         raise ValueError(o)
@@ -1244,6 +1290,8 @@ class Drive:
         self.open_labels = set()
         self.stopped = None
         self.n_raised = 0           # calls of this history that raised so far
+        self.pending = []           # rows of the steps INSIDE the call in progress (a re-entrant digest: one per digester call / nested call)
+        self.sub = None             # ... its bookkeeping
 
     def status_of_queue(self):
         """get_queue_status() - the one accessor that takes the lock.  After a call of the history has raised it is made under the
@@ -1273,7 +1321,7 @@ class Drive:
         before = rig.queue_ids()
         ncalls = len(rig.calls)
         rig.begin_op()
-        paused, bad, raised = False, False, None
+        paused, bad, raised, via = False, False, None, None
         if o[0] == "adv":
             rig.clock.t += o[1]
             ret, row = None, [0]
@@ -1294,6 +1342,10 @@ class Drive:
                     st = rig.pass_step(o[1], chk._timeout())
                 else:
                     st = None
+                    if o[0] == "rdigest":
+                        self.sub = {"k": o[1], "n": 0, "before": before, "ncalls": ncalls,
+                                    "via": f"inside call #{idx} digest({'' if o[1] is None else o[1]}) of the program"}
+                        rig.rdrive = self
                     opt, box, done = _spawn_call(rig.do(o, nid), rig.hold)
                     rig.spawned.append(opt)
                     if not done.wait(chk._timeout()):
@@ -1320,7 +1372,7 @@ class Drive:
                 culprit = (rig.passes[o[1]].thread if is_pass(o) and o[1] in rig.passes else None) if is_pass(o) else opt
                 loc, moved = where_is(culprit) if stuck else (None, False)
                 steps.append({"op": o, "hang": stuck, "waited": not stuck, "before": before,
-                              "parked": sorted(open_labels), "at": loc, "spinning": moved,
+                              "parked": sorted(open_labels), "at": loc, "spinning": moved, "reentries": list(rig.reentries),
                               "raised_before": [(j, s_["op"], s_["raised"]) for j, s_ in enumerate(steps) if s_.get("raised")]})
                 self.stopped = {"steps": steps, "hang": stuck, "at": idx}
                 return [-999] if stuck else [-997]
@@ -1334,20 +1386,69 @@ class Drive:
                     if ps.err is not None:
                         raise ps.err
                     ret = ps.ret
-            if raised is not None:
-                row = [4]
-            elif paused:
-                row = [3]
-            elif is_ingest(o) or o[0] in ("prune", "peek", "clear"):
-                row = [0] if ret is None else [-7]
-            elif o[0] in ("digest", "dbad", "pbegin", "pstep"):
-                rec = pairs(ret.recycled)
-                eids = err_ids(ret.errors)
-                row = [1, int(ret.success is True), ret.disposed, len(ret.errors)] + eids + [len(rec)] + [x for p in rec for x in p]
-                self.cum_rep += len(ret.errors)
-            else:
-                row = [2, ret]
-                self.cum_exp += ret
+            if o[0] == "rdigest":
+                # the call returned: the last step of the re-entrant digest (its first and only one if it took nothing)
+                o = ["pbegin", -1, o[1]] if self.sub["n"] == 0 else ["pstep", -1]
+                before, ncalls = self.sub["before"], self.sub["ncalls"]
+                open_labels.discard(-1)
+                via = self.sub["via"]
+                self.sub = None
+                rig.rdrive = None
+                if raised is not None:
+                    return self._finish(o, [4], ret, before, ncalls, raised=raised, via=via)
+            row = self._head(o, ret, raised, paused)
+        return self._finish(o, row, ret, before, ncalls, paused, bad, raised, via if o[0] in ("pbegin", "pstep") and o[1] == -1 else None)
+
+    def _head(self, o, ret, raised, paused):
+        """what the call returned, as the first numbers of its row"""
+        if raised is not None:
+            return [4]
+        if paused:
+            return [3]
+        if is_ingest(o) or o[0] in ("prune", "peek", "clear"):
+            return [0] if ret is None else [-7]
+        if o[0] in ("digest", "dbad", "pbegin", "pstep"):
+            rec = pairs(ret.recycled)
+            eids = err_ids(ret.errors)
+            self.cum_rep += len(ret.errors)
+            return [1, int(ret.success is True), ret.disposed, len(ret.errors)] + eids + [len(rec)] + [x for p in rec for x in p]
+        self.cum_exp += ret
+        return [2, ret]
+
+    # -- a digest() call whose callbacks call back: its steps, recorded from inside the callbacks ----------------------------
+    def _sub_begin(self):
+        self.sub["before"], self.sub["ncalls"] = self.rig.queue_ids(), len(self.rig.calls)
+        self.rig.begin_op()
+
+    def sub_enter(self):
+        """called at the beginning of every digester / on_toxic call the re-entrant digest() makes: digest() has taken its items and
+        is inside its first digester (PassBegin), or the previous digester has returned / raised and digest() has done its bookkeeping
+        for that item (PassStep)"""
+        sub = self.sub
+        o = ["pbegin", -1, sub["k"]] if sub["n"] == 0 else ["pstep", -1]
+        sub["n"] += 1
+        self.open_labels.add(-1)
+        self.pending.append(self._finish(o, [3], None, sub["before"], sub["ncalls"], paused=True, via=sub["via"]))
+        self._sub_begin()
+
+    def sub_call(self, i, act):
+        """the digester / on_toxic of item i makes the call `act` on the lysosome it was called from"""
+        rig, sub = self.rig, self.sub
+        self._sub_begin()
+        ret, raised = None, None
+        try:
+            ret = rig.do(act, self.nid)()
+        except Exception as e:  # noqa - the callback handles it
+            raised = _Raised(e)
+            self.n_raised += 1
+        via = f"{sub['via']}: made by the {'on_toxic callback' if rig.types.get(i) == TOXIC else 'digester'} of item {i} while digest() was inside it"
+        row = self._head(act, ret, raised, False)
+        self.pending.append(self._finish(act, row, ret, sub["before"], sub["ncalls"], raised=raised, via=via))
+        self._sub_begin()
+
+    def _finish(self, o, row, ret, before, ncalls, paused=False, bad=False, raised=None, via=None):
+        chk, rig, steps, open_labels = self.chk, self.rig, self.steps, self.open_labels
+        lys, nid = rig.lys, self.nid
         calls = rig.calls[ncalls:]
         if is_ingest(o):
             self.cum_silent += sum(1 for c in calls if c[2])
@@ -1365,7 +1466,7 @@ class Drive:
         row += [len(b)] + [x for p in b for x in p]
         row += [len(rig.toxlog)] + list(rig.toxlog)
         row += [self.cum_rep, self.cum_silent, self.cum_exp]
-        steps.append({"op": o, "new": nid if is_ingest(o) else None, "before": before, "after": after,
+        steps.append({"op": o, "new": nid if is_ingest(o) else None, "before": before, "after": after, "via": via,
                       "calls": calls, "paused": paused, "bad": bad, "open": sorted(open_labels),
                       "raised": None if raised is None else raised.text, "observer_blocked": blocked,
                       "ret": (None if ret is None else
@@ -1381,6 +1482,14 @@ class Drive:
         if is_ingest(o):
             self.nid += 1
         return row
+
+
+def acts_of(case):
+    """{ingest event: what the digester / on_toxic of that item does with the lysosome it is called from}"""
+    return {int(i): list(a) for (i, a) in (case.get("acts") or [])}
+
+
+NESTED_CALLS = ("digest", "ingest", "isens", "ierr", "auto")
 
 
 def is_ingest(o):
@@ -1468,6 +1577,20 @@ class C13(Check):
             "<=3 over 9 (thorough) of {ingest of an odd item, autophagy, digest(1), ingest_sensitive, digest(1.5), retention_period = 24, retention_period = "
             "timedelta(0), ingest, clock} that contains an error letter, threshold 3. Scheduled: autophagy() raising in one thread while the other ingests, "
             "digests the odd item away and sweeps (its sweep raises or not, depending on the schedule); digest(1.5) + autophagy() raising next to a digest pass. "
+            "CALLBACKS THAT CALL BACK (every 8th generated history, an enumeration, two corpus cases, two scheduled programs + a third of the random "
+            "thread programs): the scripted digesters and the on_toxic callback call the lysosome they are called from before they return / raise - "
+            "acts = [[item, action]]: ['status'] = get_queue_status() + get_statistics(), performed wherever the callback is invoked (inside digest(), inside "
+            "an ingest that auto-digests, inside an ingest that makes room - there under the lock -, from any thread); or a call of its own - digest(None/0/1/2), "
+            "ingest of any type, ingest_sensitive, ingest_error, autophagy - performed when the callback is invoked by a digest(k) call of the program (op "
+            "rdigest k; the items are off the queue, the lock is free) and is not itself running inside such a nested call (re-entry at depth one; elsewhere "
+            "these callbacks only read). A re-entrant digest(k) is observed from inside the callbacks: one row when digest() is inside its first digester, one "
+            "after every call a callback made, one after every digester call, the last with the DigestResult - the rows of PassBegin / Atomic / PassStep of the "
+            "model, which expands XDigest k accordingly (Model.v Part 1f). Enumeration: every history of depth <=3 (quick) / <=4 (thorough) over "
+            "{ingest_sensitive returning / raising, ingest, digest(), digest(1)} with a digest in it x 3 tables of actions (flush the rest / ingest more while "
+            "digest() is working, also items whose digesters raise / partial digests and sweeps; a nested ingest finds at most the queue length the call began "
+            "with minus one, so it never makes room itself, and reaches the threshold only after it was lowered). Scheduled: on_toxic reading the queue status inside "
+            "digest(1) of one thread while the other thread ingests into the full queue whose older half holds another sensitive item; a reading digester "
+            "against an ingest reaching the threshold and a sweep. "
             "Validation only: 2 real threads x 1..3 calls without the scheduler, random pre-fill (half of the runs: items whose digesters raise) and start "
             "offsets (300 quick / 4000 thorough runs), queue bound read at the return of every call. non-trivial = at least one item left the queue "
             "(scheduled runs: the threads' steps alternated at least once); distinct by case content")
@@ -1491,6 +1614,10 @@ class C13(Check):
                   "can move; on the lock machine a call may raise at ANY point of its program - the exception leaves through the `with self._lock:` blocks "
                   "it is inside, each giving its level back (unwind) - and threads making any calls, any of them raising anywhere, never reach a stuck "
                   "configuration (Examples.v: the same program with the release skipped on the error path does). "
+                  "Callbacks that call back: a digest(k) call whose digesters / on_toxic make calls on the same lysosome (any table item -> call, any "
+                  "history around it) is proved to BE an interleaved history (the nested calls run between two digester calls of the call in progress), so "
+                  "every statement above holds after every such history, and the re-entrant call returns: after one digester call per item taken, whatever "
+                  "the callbacks called, it is no longer in progress and has returned a DigestResult for exactly the items it took. "
                   "Threads: any number of threads, each with any list of calls, under any "
                   "schedule, started after any history: every such run is an interleaved history (so the bound holds after every step - in "
                   "particular at the return of every call of every thread - and conservation, exactly-once reporting, the toxic statements hold "
@@ -1506,7 +1633,8 @@ class C13(Check):
                   "exactly as many steps as instructions were executed (so it stops). The model is tied "
                   "to the code by evaluating it in Coq on every generated history the implementation ran.")
     LEVEL_NOTE = ("Trusts: Coq kernel+VM; the correspondence harness; the ast translator of the lock structure; CPython's `with "
-                  "lock` mutual exclusion; digesters/on_toxic return or raise Exception and do not block or re-enter. The threads model is "
+                  "lock` mutual exclusion; digesters/on_toxic return or raise Exception, do not block, and call back into the lysosome only as the re-entrant "
+                  "histories say (reads anywhere; calls from inside a digest() call of the program, at depth one). The threads model is "
                   "proved for all programs and schedules at the granularity critical-section / digester-call; that this IS the granularity of the code is "
                   "the generated obligation atomic_calls plus the scheduled runs of real threads (every explored schedule is compared with the model); "
                   "interleavings finer than that (between two source lines of digest() outside the lock: counters, the recycling bin's last writer) are "
@@ -1521,8 +1649,11 @@ class C13(Check):
                "modelled not verified: `with self._lock` gives mutual exclusion, an RLock may be re-acquired by its holder and a "
                "Lock may not; one source line of the modelled methods executes atomically (counter += 1 outside the lock in digest)",
                "digesters and on_toxic are deterministic functions of the item that return a dict / raise an Exception subclass; "
-               "they terminate, take no other lock and do not call back into the lysosome (they do run while self._lock is held "
-               "on the ingest path: listed in the evidence as callbacks_under_lock)",
+               "they terminate and take no lock of their own; they run while self._lock is held on the ingest path (listed in the evidence as "
+               "callbacks_under_lock). They may call back into the lysosome: reads (get_queue_status / get_statistics) from anywhere, calls (digest, "
+               "ingest*, autophagy) from inside a digest() call of the program - modelled as calls between two digester calls of that digest(); a re-entrant "
+               "digest() is observed from inside the harness' callbacks (a row at the beginning of every digester call, after every nested call, at the "
+               "return), and the calls a callback makes do not call back again",
                "the TOXIC_BYPRODUCT digester is the default _digest_toxic (the toxic theorems are about it); the four other "
                "default digesters are replaced by scripted ones in 75-80% of the histories (their behaviour is covered by the oracle) and "
                "run as they are, observed through a wrapper installed after construction, in the rest: the outcome the model is given for "
@@ -1567,6 +1698,14 @@ class C13(Check):
                    "not a timedelta), by an exception the caller handles; after such a call the object must be as usable as before: every later call, from "
                    "this thread or any other, returns. An exception on a well-formed input is reported (C13/raises). waste_type / content / source of an item "
                    "are well-formed throughout; only created_at, retention_period and max_items are varied over malformed values",
+                   "callbacks that call back: a digester / on_toxic may READ the lysosome wherever it is invoked, and may make CALLS on it when it is invoked "
+                   "by a digest() call of the program (digest() has taken its items off the queue and holds no lock while it runs digesters). A callback that "
+                   "makes a mutating call while ingest() is making room for it (the emergency digest runs the digesters under the lock with the items still "
+                   "queued) is outside what is explored and modelled: on the unchanged code such a callback sees the items being processed still in the queue - "
+                   "a nested digest() takes and digests them a second time (on_toxic twice for one item), a nested ingest() starts a second emergency digest "
+                   "over the same items; every call still returns. The run records this in the evidence (extra coverage "
+                   "`reentrant_call_while_making_room`) without raising it: the property quantifies over digesters that raise, not over digesters that mutate "
+                   "the object they are called from under its own lock",
                    "auto_digest_threshold and retention_period may be reassigned between calls; max_queue_size is fixed after construction (lowering it below the current "
                    "queue length would break the bound by itself)",
                    "'the toxic callback' of an item is the on_toxic of the lysosome it was ingested into: with several lysosomes in one program "
@@ -1896,6 +2035,90 @@ class C13(Check):
             ops += [["pstep", p]] * left[p]
         return {"cfg": cfg, "ops": ops}
 
+    def _rand_act(self, rng, i):
+        """what the digester / on_toxic of an item does with the lysosome it is called from"""
+        k = rng.random()
+        if k < 0.22:
+            return ["status"]
+        if k < 0.55:
+            return ["digest", rng.choice([None, None, 1, 1, 2, 0])]
+        if k < 0.72:
+            return ["isens", self._rand_out(rng, i)]
+        if k < 0.88:
+            return ["ingest", rng.choice([0, 1, 2, 3, TOXIC]), rng.choice([0, 0, -1, -3]), self._rand_out(rng, i)]
+        if k < 0.93:
+            return ["ierr", self._rand_out(rng, i)]
+        return ["auto"]
+
+    def _rand_reentrant_case(self, rng, maxlen):
+        """histories in which the digesters and the on_toxic callback CALL BACK into the lysosome they are called from: 60% of the
+        items carry an action - read get_queue_status() / get_statistics(), or make a call: digest(k), an ingest of any kind (it may reach
+        an auto-digest threshold that was lowered meanwhile), autophagy() - which the callback performs before it returns
+        / raises; the program's digest(k) calls (rdigest) are the ones whose callbacks make calls, everywhere else the callbacks read.
+        Sensitive items are frequent (the on_toxic callback is the one a program is most likely to hang an audit on)."""
+        heavy = rng.random() < 0.35
+        mx = rng.choice([2, 3, 3, 4, 4, 5, 6, 8])
+        thr = rng.choice([mx + 1, mx + 2, 10]) if heavy else rng.choice([2, 2, 3, 3, 4, 5, mx, 9, 10])
+        cfg = {"max": mx, "thr": thr, "ret": rng.choice([0, 1, 1, 2, 3, 5]), "cb": True, "loud": rng.random() < 0.2, "dd": False}
+        ops, i = [], 0
+
+        def ing():
+            j = rng.random()
+            if j < 0.45:
+                return ["isens", self._rand_out(rng, i)]
+            if j < 0.55:
+                return ["ierr", self._rand_out(rng, i)]
+            return ["ingest", rng.choice([0, 1, 2, 3, TOXIC]), rng.choice([0, 0, 0, -1, -2]), self._rand_out(rng, i)]
+        for _ in range(rng.randint(1, min(mx, 4))):
+            ops.append(ing())
+            i += 1
+        n = rng.randint(len(ops) + 1, max(len(ops) + 2, maxlen))
+        while len(ops) < n:
+            k = rng.random()
+            if k < 0.45:
+                ops.append(ing())
+                i += 1
+            elif k < 0.80:
+                ops.append(["rdigest", rng.choice([None, None, 1, 1, 2, 2, 3, -1])])
+            elif k < 0.86:
+                ops.append(["digest", rng.choice([None, 1, 2])])
+            elif k < 0.91:
+                ops.append(["auto"])
+            elif k < 0.96:
+                ops.append(["adv", rng.choice([1, 1, 2, 3])])
+            elif k < 0.98:
+                ops.append(["setthr", rng.choice([1, 2, 3, mx, 10])])
+            else:
+                ops.append(self._rand_side(rng, i))
+        ops.append(["rdigest", None])
+        # ids are given in ingestion order, the calls the callbacks make included: some actions land on items a callback ingested
+        acts = [[j, self._rand_act(rng, j)] for j in range(i + 4) if rng.random() < 0.6]
+        return {"cfg": cfg, "ops": ops, "acts": acts}
+
+    REENTRANT_ALPHABET = [["isens", []], ["isens", None], ["ingest", 0, 0, [0]], ["rdigest", None], ["rdigest", 1]]
+    REENTRANT_TABLES = [
+        # every callback flushes the rest of the queue / every second one ingests another sensitive item
+        [[j, ["digest", None] if j % 2 == 0 else ["isens", []]] for j in range(8)],
+        # every callback ingests (the queue fills up again while digest() is working), the callbacks of the items ingested that way
+        # look at the queue status
+        [[j, ["ingest", 1, 0, None] if j < 3 else ["status"]] for j in range(8)],
+        # partial digests and sweeps from inside, the callback of item 0 only reads
+        [[0, ["status"]]] + [[j, ["digest", 1] if j % 2 else ["auto"]] for j in range(1, 8)],
+    ]
+
+    def _exhaustive_reentrant(self):
+        """every history of depth <=3 (quick) / <=4 (thorough) over {ingest_sensitive with a returning / raising callback, ingest, digest(),
+        digest(1)} that contains a digest, on max_queue_size 3 with threshold 9 (first two tables) / 2 (third), x 3 tables of callbacks that call back"""
+        depth = 3 if self.tier == "quick" else 4
+        out = []
+        for n, table in enumerate(self.REENTRANT_TABLES):
+            cfg = {"max": 3, "thr": 2 if n == 2 else 9, "ret": 1, "cb": True}
+            for d in range(2, depth + 1):
+                for combo in itertools.product(self.REENTRANT_ALPHABET, repeat=d):
+                    if combo[0][0] != "rdigest" and any(o[0] == "rdigest" for o in combo):
+                        out.append({"cfg": cfg, "ops": [list(o) for o in combo], "acts": [list(a) for a in table]})
+        return out
+
     def _rand_sched_case(self, rng):
         """two real threads x 1..3 calls under the deterministic scheduler: one of the fixed programs or a random one, and a
         random schedule (which thread is preferred at each choice point; it changes its mind with probability 1/5)"""
@@ -1982,6 +2205,8 @@ class C13(Check):
                 out.append(self._rand_error_case(rng, min(maxlen, 16)))
             elif j % 8 == 2:
                 out.append(self._rand_world_case(rng, min(maxlen, 16)))
+            elif j % 8 == 0:
+                out.append(self._rand_reentrant_case(rng, min(maxlen, 14)))
             elif j % 4 == 1:
                 out.append(self._rand_twin_case(rng, maxlen))
             elif j % 4 == 3:
@@ -2006,7 +2231,7 @@ class C13(Check):
                 for combo in itertools.product(alpha, repeat=d):
                     out.append({"cfg": cfg, "ops": [list(o) for o in combo]})
         return (out + self._exhaustive_overlaps() + self._exhaustive_wide() + self._exhaustive_errors() + self._exhaustive_worlds()
-                + self._explored_sched_cases())
+                + self._exhaustive_reentrant() + self._explored_sched_cases())
 
     ERROR_ALPHABET = [["iodd", 1, "aware", []], ["auto"], ["digest", 1], ["isens", []], ["dbad", "float"], ["setret", "int"], ["setret", 0],
                       ["ingest", 0, 0, [0]], ["adv", 1]]
@@ -2102,7 +2327,10 @@ class C13(Check):
         cfg, ops = case["cfg"], case["ops"]
         if any(is_pass(o) for o in ops) and not cfg["cb"]:
             raise ValueError("overlapping passes need on_toxic set (a sensitive item would have no point to park at)")
+        if case.get("acts") and (cfg.get("dd") or not cfg["cb"] or any(o[0] in ("twin", "again") for o in ops)):
+            raise ValueError("callbacks that call back are scripted digesters + an on_toxic callback, on items that are told apart by identity")
         rig = Rig(cfg)
+        rig.acts = acts_of(case)
         lys = rig.lys
         try:
             with rig.quiet():
@@ -2114,7 +2342,10 @@ class C13(Check):
         d = Drive(self, rig, cfg)
         obs = [d.row0]
         for idx, o in enumerate(ops):
-            obs.append(d.step(idx, o))
+            row = d.step(idx, o)
+            obs += d.pending        # the steps inside a re-entrant digest() call, then its return
+            d.pending = []
+            obs.append(row)
             if d.stopped is not None:
                 return obs, d.stopped
         return obs, d.trace()
@@ -2230,7 +2461,7 @@ class C13(Check):
 
     def coq_case(self, case):
         if "two_threads" in case:          # replay of a finding of the random real-thread runs: nothing for the model to run
-            return "(mkConfig 0 0 (Some 0) false, [], [], [], ([], []))"
+            return "(mkConfig 0 0 (Some 0) false, [], [], [], ([], []), ([], []))"
         if "world" in case:
             wd = case["world"]
             slots = [0] * len(wd["cfgs"])
@@ -2250,7 +2481,7 @@ class C13(Check):
                         slots[j] += 1 if is_ingest(o) else 0
                     else:
                         wops.append(f"WOn {max(j, 0)} (SetThr 0)")      # no such lysosome (yet): not a call, whatever it is
-            return f"(mkConfig 0 0 (Some 0) false, [], [], [], ({czl(wd['keys'])}, {clist(wops)}))"
+            return f"(mkConfig 0 0 (Some 0) false, [], [], [], ({czl(wd['keys'])}, {clist(wops)}), ([], []))"
         if "sched" in case:
             # real threads under the deterministic scheduler: the programs, and the order in which their steps took effect
             tc = case["sched"]["program"]
@@ -2269,7 +2500,7 @@ class C13(Check):
                     slot += 1
                 progs.append(clist(row))
             return (f"(mkConfig {cz(cfg['max'])} {cz(cfg['thr'])} (Some {cz(cfg['ret'])}) {cbool(cfg['cb'])}, {clist(pre)}, "
-                    f"{clist(progs)}, {czl(case.get('_lin', []))}, ([], []))")
+                    f"{clist(progs)}, {czl(case.get('_lin', []))}, ([], []), ([], []))")
         cfg = case["cfg"]
         ops = []
         t = 0
@@ -2326,10 +2557,21 @@ class C13(Check):
                 ops.append(f"ROp (PassStep {cz(o[1])})")
             elif o[0] == "setthr":      # lysosome.auto_digest_threshold = n
                 ops.append(f"SetThr {cz(o[1])}")
+            elif o[0] == "rdigest":     # digest(k) by the program; the callbacks of its items call back as case["acts"] says
+                ops.append(f"\0XDigest {copt(o[1])}")
             else:
                 atomic(f"Advance {cz(o[1])}")
                 t += o[1]
-        return f"(mkConfig {cz(cfg['max'])} {cz(cfg['thr'])} (Some {cz(cfg['ret'])}) {cbool(cfg['cb'])}, {clist(ops)}, [], [], ([], []))"
+        head = f"mkConfig {cz(cfg['max'])} {cz(cfg['thr'])} (Some {cz(cfg['ret'])}) {cbool(cfg['cb'])}"
+        if case.get("acts") or any(o[0] == "rdigest" for o in case["ops"]):
+            # a history with callbacks that call back (Model.v Part 1f): the table item id -> nested call (reads are transparent)
+            for (_i, a) in case.get("acts") or []:
+                if a[0] != "status" and a[0] not in NESTED_CALLS:
+                    raise ValueError(f"not a call a callback makes: {a}")
+            table = [f"({cz(i)}, {self._op_term(cfg, a, 0)})" for (i, a) in case.get("acts") or [] if a[0] != "status"]
+            xs = [x[1:] if x.startswith("\0") else f"XR ({x})" for x in ops]
+            return f"({head}, [], [], [], ([], []), ({clist(table)}, {clist(xs)}))"
+        return f"({head}, {clist(ops)}, [], [], ([], []), ([], []))"
 
     # -- the property, on the implementation's trace ------------------------
     def monitor(self, case, obs, trace):
@@ -2384,10 +2626,20 @@ class C13(Check):
         bad_retention = False  # retention_period is not a timedelta at this point of the history
         for i, st in enumerate(steps):
             o = st["op"]
-            where = f"call #{i} {o}"
+            where = f"call #{i} {o}" + (f" [{st['via']}]" if st.get("via") else "")
             if st.get("hang"):
                 hist = [s["op"] for s in steps]
                 rb = st.get("raised_before") or []
+                if case.get("acts"):
+                    ree = st.get("reentries") or []
+                    return Violation("C13/hang", f"{where} did not return within the watchdog time"
+                                                 + (f" [the call is still {'EXECUTING (a loop that does not end)' if st.get('spinning') else 'blocked'} "
+                                                    f"at {st['at']}]" if st.get("at") else "")
+                                                 + f" - the digesters / on_toxic callbacks of the items call back into the lysosome they are called from "
+                                                   f"(item -> what its callback does: {case['acts']}; 'status' = get_queue_status() + get_statistics(); the other "
+                                                   f"calls are made when the callback is invoked by a digest() call of the program); callbacks that called back "
+                                                   f"before the call stopped (item, action, made a call | only read): {ree}; steps so far {hist} "
+                                                   f"with max_queue_size={cfg['max']} auto_digest_threshold={cfg['thr']} (queue before: {st['before']})")
                 return Violation("C13/hang", f"{where} did not return within the watchdog time"
                                              + (f" [the call is still {'EXECUTING (a loop that does not end)' if st.get('spinning') else 'blocked'} "
                                                 f"at {st['at']}]" if st.get("at") else "")
@@ -2607,6 +2859,24 @@ class C13(Check):
             return ks
         if any(is_pass(o) for o in case["ops"]):
             ks.append("overlapping-digest-calls")
+        if case.get("acts"):
+            ks.append("callbacks-call-back")
+            for s in trace.get("steps", []):
+                via = s.get("via") or ""
+                if "made by" in via:
+                    o = s["op"]
+                    ks.append("reentrant:" + ("on_toxic" if "on_toxic" in via else "digester") + "-calls-"
+                              + ("ingest" if is_ingest(o) else "autophagy" if o[0] == "auto" else o[0]))
+                    if is_ingest(o):
+                        gone = len(s["before"]) + 1 - len(s["after"])
+                        if len(s["before"]) >= cfg["max"]:
+                            ks.append("reentrant:nested-ingest-at-capacity")
+                        elif gone > 0:
+                            ks.append("reentrant:nested-ingest-auto-digests")
+                    elif o[0] == "digest" and len(s["before"]) > len(s["after"]):
+                        ks.append("reentrant:nested-digest-takes-items")
+                    if s.get("raised"):
+                        ks.append("reentrant:nested-call-raised")
         n_raised_so_far = 0
         for s in trace.get("steps", []):
             seen_raise = n_raised_so_far > 0
@@ -2738,6 +3008,9 @@ class C13(Check):
                 i += 1            # ids are reserved per slot whether or not the op ingests
             ths.append(ops)
         tc = {"cfg": cfg, "pre": pre, "threads": ths, "delay_us": [rng.choice([0, 0, 20, 50, 100, 200]) for _ in range(2)]}
+        if i % 3 == 0:
+            # the digester / on_toxic of every second item looks at the lysosome it is called from (no random draw: the programs are as before)
+            tc["acts"] = [[j, ["status"]] for j in range(0, i, 2)]
         if rng.random() < 0.5:
             # the items already queued when the threads start have digesters that raise (40%) / recycle under colliding keys
             tc["pre_ops"] = [["ingest", rng.choice([0, 1, 2, 3]), 0, None if rng.random() < 0.4 else self._rand_out(rng, j)]
@@ -2838,6 +3111,7 @@ class C13(Check):
         """-> None | Violation.  Final-state check of the monitor's invariants."""
         cfg = tc["cfg"]
         rig = Rig(cfg)
+        rig.acts = acts_of(tc)
         lys = rig.lys
         try:
             nid, v = self._prefill(rig, tc)
@@ -2902,7 +3176,8 @@ class C13(Check):
                 if cfg["max"] >= 2 and qn > cfg["max"]:
                     return Violation("C13/queue-unbounded", f"two threads {tc['threads']} after the ingests {self._pre_ops(tc)}: when the call {o} of "
                                                             f"thread {k} returned the queue held {qn} items > max_queue_size {cfg['max']}")
-            return self._final_check(rig, cfg, rets, n_ing, f"two threads {tc['threads']} after the ingests {self._pre_ops(tc)}")
+            return self._final_check(rig, cfg, rets, n_ing, f"two threads {tc['threads']} after the ingests {self._pre_ops(tc)}"
+                                     + (f" (callbacks of items {sorted(rig.acts)} read the queue status)" if rig.acts else ""))
         finally:
             rig.close()
 
@@ -2941,6 +3216,16 @@ class C13(Check):
         # capacity 3 = threshold - 1: ingests at capacity against autophagy (nothing expires) and a partial digest
         {"cfg": {"max": 3, "thr": 4, "ret": 2, "cb": True}, "pre": 3,
          "threads": [[["isens", None], ["ingest", 0, 0, [2]]], [["ingest", 3, 0, None], ["auto"], ["digest", 1]]]},
+        # CALLBACKS THAT CALL BACK.  The on_toxic callback reads get_queue_status() of the lysosome it is called from: thread 0 is inside
+        # it (digest(1), lock free) while thread 1 ingests into the full queue whose older half holds another sensitive item (emergency
+        # digest: on_toxic under the lock) - whichever thread gets there first, both calls return
+        {"cfg": {"max": 2, "thr": 9, "ret": 1, "cb": True}, "pre": 2, "pre_ops": [["isens", []], ["isens", None]],
+         "acts": [[0, ["status"]], [1, ["status"]], [3, ["status"]]], "quick_runs": 80,
+         "threads": [[["digest", 1]], [["ingest", 1, 0, []], ["ingest", 0, 0, [0]]]]},
+        # ... the same with a digester (not on_toxic) reading, against an ingest that reaches the threshold and a sweep
+        {"cfg": {"max": 4, "thr": 3, "ret": 1, "cb": True}, "pre": 2, "pre_ops": [["ingest", 0, 0, [0]], ["isens", []]],
+         "acts": [[0, ["status"]], [1, ["status"]], [2, ["status"]]], "quick_runs": 50,
+         "threads": [[["digest", None], ["isens", []]], [["ingest", 2, 0, None], ["auto"]]]},
         # ERROR PATHS.  An item with a timezone-aware created_at is queued: thread 0's autophagy() raises (it handles the error and goes
         # on ingesting) while thread 1 ingests, digests the odd item away and sweeps - its sweep raises or not, depending on the order
         {"cfg": {"max": 4, "thr": 9, "ret": 1, "cb": True}, "pre": 1, "pre_ops": [["iodd", 1, "aware", []]], "quick_runs": 60,
@@ -2959,6 +3244,9 @@ class C13(Check):
         linearisation = the thread that made each step: what coq_case feeds run_case of the model."""
         cfg = tc["cfg"]
         rig = Rig(cfg)
+        rig.acts = acts_of(tc)
+        if any(a[0] != "status" for a in rig.acts.values()):
+            raise ValueError("callbacks of a threads program only read (get_queue_status / get_statistics)")
         lys = rig.lys
         state = {"last": None}
         rp = lys.retention_period
@@ -3036,7 +3324,9 @@ class C13(Check):
             obs += lin.flat_rows()
             chosen = [c for c, _ in s.trace if c is not None]
             prog = (f"threads {tc['threads']} after the ingests {self._pre_ops(tc)} on max_queue_size={cfg['max']} "
-                    f"auto_digest_threshold={cfg['thr']}")
+                    f"auto_digest_threshold={cfg['thr']}"
+                    + (f", the digesters / on_toxic callbacks of items {sorted(rig.acts)} (numbered in program order: pre-fill, thread 0, thread 1) "
+                       f"call get_queue_status() + get_statistics() on the lysosome they are called from" if rig.acts else ""))
             sch = f"schedule {chosen if len(chosen) <= 150 else str(chosen[:150]) + ' ... (%d choices)' % len(chosen)}"
             desc = f"{prog}, {sch}"
 
@@ -3145,7 +3435,48 @@ class C13(Check):
         tc.pop("delay_us", None)
         return tc
 
+    def _probe_reentry_while_making_room(self):
+        """NOT part of the verdict: what the code does when an on_toxic callback makes a mutating call while ingest() is making room (the
+        emergency digest runs it under the lock, the items still queued) - recorded in the evidence on every run."""
+        import operon_ai.organelles.lysosome as L
+        out = {}
+        for name, act in (("digest", lambda l: l.digest()),
+                          ("ingest", lambda l: l.ingest(L.Waste(L.WasteType.EXPIRED_CACHE, "n", "probe")))):
+            log, box = [], {"in": False}
+
+            def cb(w, act=act, log=log, box=box):
+                log.append(w.content)
+                if not box["in"]:
+                    box["in"] = True
+                    try:
+                        act(box["l"])
+                    finally:
+                        box["in"] = False
+            lys = L.Lysosome(max_queue_size=2, auto_digest_threshold=100, on_toxic=cb, silent=True)
+            box["l"] = lys
+
+            def run(lys=lys):
+                for x in ("a", "b", "c"):
+                    lys.ingest_sensitive(x)
+                return True
+            try:
+                common.call_with_watchdog(run, 2.0)
+                st = lys.get_statistics()
+                out[f"on_toxic_calls_{name}"] = (f"returned; on_toxic calls {log}; queue {[w.content for w in lys._queue]}; "
+                                                f"total_ingested {st['total_ingested']} total_digested {st['total_digested']}")
+            except common.Hang:
+                out[f"on_toxic_calls_{name}"] = "HANG"
+            except Exception as e:  # noqa
+                out[f"on_toxic_calls_{name}"] = f"raised {type(e).__name__}: {e}"
+        out["history"] = ("Lysosome(max_queue_size=2, auto_digest_threshold=100, on_toxic=cb); ingest_sensitive('a'); ingest_sensitive('b'); "
+                          "ingest_sensitive('c') - cb(w) calls lysosome.digest() / lysosome.ingest(Waste(EXPIRED_CACHE)) unless it is already inside such a call")
+        self.extra_cov["reentrant_call_while_making_room"] = out
+
     def extra_checks(self):
+        try:
+            self._probe_reentry_while_making_room()
+        except Exception as e:  # noqa
+            self.extra_cov["reentrant_call_while_making_room"] = {"error": f"{type(e).__name__}: {e}"}
         rng = random.Random(f"C13:threads:{self.seed}")
         n = 300 if self.tier == "quick" else 4000
         ran = bad = 0
